@@ -17,7 +17,7 @@ RULE = ('universal HRG with 17 rule templates over nonterminals S(), S1(T), X(T)
         'deduplicated, canonical graph compared on every revisit); every transition is a real replace_edge call '
         'checked for: exactly the edge removed, externals identified in order, fresh copies of all other nodes/edges, '
         'labels and attachment order kept, rest of host and its ext untouched, rhs untouched; wrong-type replacement '
-        'rejected without effect; all terminal states isomorphic to FGGDerivation.derive() whose assignment is total '
+        'rejected without effect; histories on one replacement graph (used, external nodes reassigned in place to each of up to 12 selections, used again against edges of arity 0-3: acceptance follows the current type); all terminal states isomorphic to FGGDerivation.derive() whose assignment is total '
         'with weight = product over rule instances. Non-trivial = tree with >= 2 instances.')
 ASSUMPTIONS = ['node/edge objects are kept alive during a run, so address-derived ids are not recycled',
                'isomorphic hosts have isomorphic futures under replace_edge (used to deduplicate states)']
@@ -87,12 +87,16 @@ def gen_cases(tier, seed):
     for nt in NT:
         for t in trees(nt, N):
             yield ('tree', t)
+    for ri in range(len(RULES)):
+        yield ('reext', ri)
 
 
 def describe(case):
     def show(t):
         r = RULES[t[0]]
         return {'rule': '%s -> %s' % (r[0], ' '.join('%s%r' % e for e in r[3]) or '(empty)'), 'children': [show(c) for c in t[1]]}
+    if case[0] == 'reext':
+        return {'history': 'use the right-hand side of rule %d as a replacement, reassign its external nodes, use it again' % case[1], 'rule': repr(RULES[case[1]])}
     return {'derivation_tree': show(case[1]), 'rule_instances': size(case[1])}
 
 
@@ -135,9 +139,72 @@ def snapshot(g):
 KEEP = []   # keep every created object alive (address-derived ids must not be recycled by the harness)
 
 
+def run_reext(case):
+    """History on ONE replacement graph: it is used as a replacement (its type is read), its external nodes are
+    reassigned in place, and it is used again - acceptance must follow its current type and the current external
+    nodes must be the ones identified with the edge's attachment nodes."""
+    import fggs, itertools
+    from fggs import replace_edge
+    r = Res()
+    g, rules, ir = grammar()
+    ri = case[1]
+    F = copy.deepcopy(rules[ri].rhs)
+    KEEP.append(F)
+    T = next(iter(g.node_labels()))
+    nodes = list(F.nodes())
+
+    def host_for(arity):
+        h = fggs.Graph()
+        att = [fggs.Node(T) for _ in range(arity)]
+        lab = fggs.EdgeLabel('H%d' % arity, [T] * arity, is_nonterminal=True)
+        e = fggs.Edge(lab, att)
+        h.add_edge(e)
+        KEEP.extend([h, e] + att)
+        return h, e, att
+    exts = [list(F.ext)]
+    for k in range(0, min(3, len(nodes)) + 1):
+        for sel in itertools.permutations(nodes, k):
+            if list(sel) != exts[0] and len(exts) < 12:
+                exts.append(list(sel))
+    for new_ext in exts:
+        try:
+            F.ext = new_ext
+        except Exception as e:
+            r.exc(e, 'reext', case)
+            return r
+        for arity in range(0, 4):
+            key = ('reext', ri, tuple(nodes.index(v) for v in new_ext), arity)
+            h, e, att = host_for(arity)
+            n_before = len(h.nodes())
+            r.trans += 1
+            try:
+                node_map, edge_map = replace_edge(h, e, F)
+                accepted = True
+            except ValueError:
+                accepted = False
+            except Exception as ex:
+                r.exc(ex, 'reext', case, key)
+                continue
+            want = arity == len(new_ext)
+            if accepted != want:
+                r.bad('wrong-type-accepted' if accepted else 'right-type-rejected', 'derivations.replace_edge', 'reext', 'rule %d: after ext was reassigned to nodes %r (type arity %d) an edge of arity %d was %s' % (ri, key[2], len(new_ext), arity, 'accepted' if accepted else 'rejected'), case, key)
+                continue
+            if accepted:
+                KEEP.extend(list(node_map.values()) + list(edge_map.values()))
+                okmap = all(node_map[v] is a or node_map[v] == a for v, a in zip(new_ext, att))
+                fresh = len(h.nodes()) == n_before + len(nodes) - len(set(new_ext))
+                if not okmap or not fresh or e in list(h.edges()) or len(h.edges()) != len(F.edges()):
+                    r.bad('bad-replacement', 'derivations.replace_edge', 'reext', 'rule %d with ext reassigned to %r: externals identified=%r, node count %d (expected %d), edges %d (expected %d)' % (ri, key[2], okmap, len(h.nodes()), n_before + len(nodes) - len(set(new_ext)), len(h.edges()), len(F.edges())), case, key)
+                    continue
+            r.ok(key, outcome=('reext', accepted), nontrivial=True)
+    return r
+
+
 def run_case(case):
     import fggs
     from fggs import replace_edge
+    if case[0] == 'reext':
+        return run_reext(case)
     r = Res()
     tree = case[1]
     g, rules, ir = grammar()
